@@ -38,6 +38,9 @@ pub enum Liquidator {
     DebtInAssetBank,
     /// a few dollars of collateral only: larger seizures would leave the liquidator unhealthy
     ThinCollateral,
+    /// the liquidator pays out of a deposit in the debt bank, and that deposit is what backs its own debt in a third
+    /// bank (borrowed almost to the limit): swapping it for the seized collateral at its lower weight makes it unhealthy
+    DebtBankDepositBacksThirdDebt,
 }
 
 #[derive(Clone, Debug, serde::Serialize, serde::Deserialize)]
@@ -199,6 +202,23 @@ pub fn build(c: &Cfg, tag: &str) -> Option<Built> {
                 return { if std::env::var("VERIF_C05_DEBUG").is_ok() { eprintln!("c05 build failed at site 10: {:?}", c); } None };
             }
         }
+        Liquidator::DebtBankDepositBacksThirdDebt => {
+            if !go(&mut s, Action::Deposit { u: 1, b: 1, amt: usd(1, l_price, 400), up_to_limit: None }) {
+                return { if std::env::var("VERIF_C05_DEBUG").is_ok() { eprintln!("c05 build failed at site 10b: {:?}", c); } None };
+            }
+            // borrow from the third bank as much as the deposit carries (largest of a descending menu that commits)
+            let mut borrowed = false;
+            for cents in [39_000u128, 35_000, 30_000, 25_000, 20_000, 15_000, 10_000, 5_000] {
+                let amt = usd(2, 100_000_000, cents) / 100;
+                if go(&mut s, Action::Borrow { u: 1, b: 2, amt }) {
+                    borrowed = true;
+                    break;
+                }
+            }
+            if !borrowed {
+                return { if std::env::var("VERIF_C05_DEBUG").is_ok() { eprintln!("c05 build failed at site 10c: {:?}", c); } None };
+            }
+        }
         Liquidator::DebtInAssetBank => {
             if !go(&mut s, Action::Deposit { u: 1, b: 2, amt: usd(2, 100_000_000, 200_000), up_to_limit: None }) {
                 return { if std::env::var("VERIF_C05_DEBUG").is_ok() { eprintln!("c05 build failed at site 11: {:?}", c); } None };
@@ -279,6 +299,15 @@ pub fn build(c: &Cfg, tag: &str) -> Option<Built> {
         Level::Negative => set_price(&mut s, &w, 1, hi + hi / 10, 0),
         Level::DeeplyNegative => set_price(&mut s, &w, 1, hi * 3, 0),
         Level::NegativeOnlyAfterBias => set_price(&mut s, &w, 1, lo - lo / 200, 1000),
+    }
+    if c.liquidator == Liquidator::DebtBankDepositBacksThirdDebt {
+        // the debt asset's price has moved (and with it the worth of the liquidator's deposit): the liquidator now
+        // borrows from the third bank up to its limit, in steps of decreasing size
+        let mut step = usd(2, 100_000_000, 100_000);
+        while step >= 1_000 {
+            while go(&mut s, Action::Borrow { u: 1, b: 2, amt: step }) {}
+            step /= 4;
+        }
     }
     // the time-weighted prices move away from spot only now: maintenance health (spot) is unchanged
     let ema_pct = match c.variant {
@@ -503,7 +532,7 @@ fn run_cfg(c: &Cfg, idx: usize) -> R {
 pub fn configs(tier: Tier) -> Vec<Cfg> {
     let pairs: &[(u8, u8, bool, bool)] = if tier == Tier::Quick { &[(6, 9, false, false), (9, 6, false, true), (8, 6, true, false)] } else { &[(6, 9, false, false), (9, 6, false, true), (8, 6, true, false), (0, 9, false, false), (6, 0, false, false), (9, 9, false, false), (6, 6, true, true)] };
     let levels = [Level::SlightlyPositive, Level::SlightlyNegative, Level::Negative, Level::DeeplyNegative, Level::NegativeOnlyAfterBias];
-    let lqs = [Liquidator::LargeDepositInDebtBank, Liquidator::SmallDepositInDebtBank, Liquidator::OnlyOtherCollateral, Liquidator::DebtInAssetBank, Liquidator::ThinCollateral];
+    let lqs = [Liquidator::LargeDepositInDebtBank, Liquidator::SmallDepositInDebtBank, Liquidator::OnlyOtherCollateral, Liquidator::DebtInAssetBank, Liquidator::ThinCollateral, Liquidator::DebtBankDepositBacksThirdDebt];
     let mut v = vec![];
     let weights: &[(f64, f64)] = if tier == Tier::Quick { &[(0.9, 1.1), (0.6, 1.0), (1.0, 1.4), (1.0, 1.0)] } else { &[(0.9, 1.1), (0.6, 1.0), (1.0, 1.4), (1.0, 1.0), (0.05, 1.0), (0.999, 1.001), (0.5, 2.0), (0.95, 1.05)] };
     let confs: &[u64] = if tier == Tier::Quick { &[0, 500] } else { &[0, 1, 100, 500, 2_000, 4_999] };
